@@ -262,7 +262,7 @@ where
     ///
     /// # Errors
     /// Returns an error if the provided address is greater than u32::MAX.
-    fn get_valid_address(addr: Felt) -> Result<u32, ExecutionError> {
+    pub(super) fn get_valid_address(addr: Felt) -> Result<u32, ExecutionError> {
         let addr = addr.as_int();
         if addr > u32::MAX as u64 {
             return Err(ExecutionError::MemoryAddressOutOfBounds(addr));
